@@ -43,7 +43,7 @@ SAFE_METHODS = {
     "startswith", "endswith", "strip", "lstrip", "rstrip", "split", "join", "insert", "append", "extend",
     "encode", "format", "upper", "lower", "hex", "tobytes", "translate", "clear", "remove", "get", "items",
     "keys", "values", "copy", "isdigit", "find", "replace", "seek", "tell", "read", "write", "close",
-    "getsockname", "bind", "setsockopt", "setblocking", "recvfrom", "sendto", "info", "debug", "error",
+    "getsockname", "bind", "setsockopt", "setblocking", "recvfrom", "recv", "recvfrom_into", "recv_into", "sendto", "info", "debug", "error",
     "warning", "warn", "critical", "acquire", "release", "is_alive", "wait", "set", "start", "join",
     "monotonic_ns", "rstrip", "pop", "count", "index", "sleep", "randint", "choice", "pack", "unpack",
     "from_bytes", "to_bytes", "groups", "match", "measure_dummy",
@@ -254,6 +254,20 @@ class Escape:
         self.visited_funcs.add("%s:%s" % (mod.rel, qn))
         taint = dict(taint)
         ret = [None]
+        # buffers filled in place by the socket (`sock.recvfrom_into(buf)`), and the views over them
+        for n in ast.walk(fd):
+            if isinstance(n, ast.Call) and isinstance(n.func, ast.Attribute) and n.func.attr in ("recvfrom_into", "recv_into") and n.args \
+                    and any(s_ in ("recvfrom", "recv") for s_ in self.sources):
+                btxt = canon(n.args[0])
+                taint[btxt] = "raw"
+                if ci is not None:
+                    for c2_ in self.repo.mro(ci):
+                        for m2_ in c2_.methods.values():
+                            for x_ in ast.walk(m2_):
+                                if isinstance(x_, ast.Assign) and len(x_.targets) == 1 and isinstance(x_.value, ast.Call) \
+                                        and canon(x_.value.func) in ("memoryview", "bytearray", "bytes") and x_.value.args \
+                                        and canon(x_.value.args[0]) == btxt:
+                                    taint[canon(x_.targets[0])] = "raw"
         # flow-insensitive taint closure over local assignments
         for _ in range(6):
             before = dict(taint)
@@ -475,6 +489,27 @@ class Escape:
             return
         if isinstance(st, ast.Assign):
             self.expr(st.value, st, ci, mod, fd, taint, stack, chain)
+            # `n, peer = sock.recvfrom_into(buf)` / `n = sock.recv_into(buf)`: the received octets are in the buffer handed in -
+            # and in every view of it (`self.view = memoryview(self.buf)` anywhere in the class)
+            if isinstance(st.value, ast.Call) and isinstance(st.value.func, ast.Attribute) and st.value.func.attr in ("recvfrom_into", "recv_into") \
+                    and st.value.args:
+                btxt = canon(st.value.args[0])
+                taint[btxt] = "raw"
+                if ci is not None:
+                    for c2_ in self.repo.mro(ci):
+                        for m2_ in c2_.methods.values():
+                            for x_ in ast.walk(m2_):
+                                if isinstance(x_, ast.Assign) and len(x_.targets) == 1 and isinstance(x_.value, ast.Call) \
+                                        and canon(x_.value.func) in ("memoryview", "bytearray", "bytes") and x_.value.args \
+                                        and canon(x_.value.args[0]) == btxt:
+                                    taint[canon(x_.targets[0])] = "raw"
+                for t in st.targets:
+                    if isinstance(t, (ast.Tuple, ast.List)) and len(t.elts) == 2 and isinstance(t.elts[1], ast.Name) \
+                            and st.value.func.attr == "recvfrom_into":
+                        taint["$sockaddr:" + t.elts[1].id] = True
+                    for e_ in (t.elts[:1] if isinstance(t, (ast.Tuple, ast.List)) else [t]):
+                        if isinstance(e_, ast.Name):
+                            taint[e_.id] = "num"
             # `data, peer = sock.recvfrom(n)`: the second element is the (host, port) pair the operating system reports
             for t in st.targets:
                 if isinstance(t, (ast.Tuple, ast.List)) and len(t.elts) == 2 and isinstance(t.elts[1], ast.Name) \
